@@ -1,1 +1,947 @@
-fn main() { eprintln!("engine not built yet"); std::process::exit(2); }
+//! Engine family `conc`: the vendored relay `intern` crate (C05, C06) against the real code.
+//!
+//!   arena.consts                         constants seen by the compiled crate (ties translator T6)
+//!   arena.index  i                       private `index(i)` + `bucket_capacity(a)`
+//!   arena.cap    a                       `bucket_capacity(a)`
+//!   arena.sched  zero prefill progs sch  2–3 real threads on one `AtomicArena` under a schedule
+//!   intern.sched zero progs sch          2–3 real threads on one `InternTable` under a schedule
+//!   intern.seq   hex,hex,…               BytesId/StringId: ids, lookup, Ord
+//!   small.bytes  hex hex                 SmallBytes across the inline boundary
+//!   path.cmp     hexpath hexpath         PathId Ord / Eq
+//!   serde.rt     pool nodes tree         InternSerdes back references (JSON wire + bincode)
+mod sched;
+
+use hx_common::*;
+use intern::intern::InternTable;
+use intern::path::PathId;
+use intern::string::{intern_bytes, BytesId, StringId};
+use intern::verif_hook as vh;
+use intern::intern_struct;
+use intern::{AsInterned, InternId, InternSerdes, WithIntern};
+use sched::{run_scheduled, Ctl};
+use serde_derive::{Deserialize, Serialize};
+use std::borrow::Borrow;
+use std::cmp::Ordering as Ord_;
+use std::panic::{catch_unwind, AssertUnwindSafe};
+use std::rc::Rc;
+use std::sync::atomic::{AtomicPtr, AtomicU32, Ordering};
+use std::sync::Arc;
+
+// ------------------------------------------------------------------ bit level
+
+fn run_consts() -> String {
+    let (min_shift, u32_bits, min_size, num_sizes, max_index) = vh::verif_consts();
+    let (shard_shift, shards) = vh::verif_shard_consts();
+    format!(
+        "{}\t{}\t{}\t{}\t{}\t{}\t{}\t{}",
+        min_shift, u32_bits, min_size, num_sizes, max_index, shard_shift, shards, vh::verif_small_max_len()
+    )
+}
+
+fn run_index(f: &[&str]) -> String {
+    let i: u32 = f[1].parse().unwrap();
+    match catch_unwind(|| {
+        let (a, b) = vh::verif_index(i);
+        (a, b, vh::verif_bucket_capacity(a))
+    }) {
+        Ok((a, b, c)) => format!("{}\t{}\t{}", a, b, c),
+        Err(_) => "panic".into(),
+    }
+}
+
+fn run_cap(f: &[&str]) -> String {
+    let a: usize = f[1].parse().unwrap();
+    match catch_unwind(|| vh::verif_bucket_capacity(a)) {
+        Ok(c) => format!("{}", c),
+        Err(_) => "panic".into(),
+    }
+}
+
+fn gen_index(r: &mut Rng) -> String {
+    let i: u64 = match r.below(10) {
+        0 => r.below(130) as u64,
+        1..=5 => {
+            let k = r.range(0, 32) as u32;
+            let base: i64 = if k == 32 { 1i64 << 32 } else { 1i64 << k };
+            let d = r.range(0, 4) as i64 - 2;
+            (base + d).clamp(0, u32::MAX as i64) as u64
+        }
+        6 => (u32::MAX as u64) - r.below(3) as u64,
+        _ => r.next() & 0xFFFF_FFFF,
+    };
+    format!("arena.index\t{}", i)
+}
+
+// ------------------------------------------------------------------ arena under a schedule
+
+struct El {
+    val: u64,
+    slot: usize,
+    drops: Arc<Vec<AtomicU32>>,
+}
+impl Drop for El {
+    fn drop(&mut self) {
+        self.drops[self.slot].fetch_add(1, Ordering::SeqCst);
+    }
+}
+
+#[derive(Clone, Debug)]
+enum AOp {
+    Add(u64),
+    /// get of the thread's own j-th add
+    GetOwn(usize),
+    /// get of the k-th prefilled element
+    GetPre(usize),
+    /// get of the zero element
+    GetZero,
+    Len,
+}
+
+fn parse_aprogs(s: &str) -> Vec<Vec<AOp>> {
+    s.split(';')
+        .map(|p| {
+            p.split(',')
+                .filter(|x| !x.is_empty() && *x != "-")
+                .map(|x| {
+                    let (h, t) = x.split_at(1);
+                    match h {
+                        "a" => AOp::Add(t.parse().unwrap()),
+                        "o" => AOp::GetOwn(t.parse().unwrap()),
+                        "p" => AOp::GetPre(t.parse().unwrap()),
+                        "z" => AOp::GetZero,
+                        "l" => AOp::Len,
+                        _ => panic!("bad op {}", x),
+                    }
+                })
+                .collect()
+        })
+        .collect()
+}
+
+fn parse_schedule(s: &str) -> Vec<usize> {
+    s.chars().filter_map(|c| c.to_digit(10)).map(|d| d as usize).collect()
+}
+
+fn fmt_threads(labels: &[Vec<String>], results: &[Vec<String>]) -> String {
+    let mut out = Vec::new();
+    for (i, l) in labels.iter().enumerate() {
+        let r = if results[i].is_empty() { "-".to_string() } else { results[i].join(",") };
+        out.push(format!("t{}:{}:{}", i, l.join("."), r));
+    }
+    out.join("\t")
+}
+
+const ZERO_VAL: u64 = 777_777;
+const PRE_BASE: u64 = 100_000;
+
+fn run_arena_sched(f: &[&str]) -> String {
+    let zero = f[1] == "1";
+    let prefill: usize = f[2].parse().unwrap();
+    let progs = parse_aprogs(f[3]);
+    let schedule = parse_schedule(f[4]);
+    let total: usize = 1 + prefill + progs.iter().map(|p| p.iter().filter(|o| matches!(o, AOp::Add(_))).count()).sum::<usize>();
+    let drops: Arc<Vec<AtomicU32>> = Arc::new((0..total).map(|_| AtomicU32::new(0)).collect());
+    let mut next_slot = 0usize;
+    let mk = |val: u64, next_slot: &mut usize| {
+        let e = El { val, slot: *next_slot, drops: drops.clone() };
+        *next_slot += 1;
+        e
+    };
+    let arena: Arc<vh::AtomicArena<'static, El>> = if zero {
+        let z: &'static intern::Zero<El> = Box::leak(Box::new(intern::Zero::new(mk(ZERO_VAL, &mut next_slot))));
+        Arc::new(vh::AtomicArena::with_zero(z))
+    } else {
+        next_slot += 1;
+        Arc::new(vh::AtomicArena::new())
+    };
+    // prefill from this (uncontrolled) thread
+    let mut pre_refs = Vec::new();
+    for k in 0..prefill {
+        pre_refs.push(arena.add(mk(PRE_BASE + k as u64, &mut next_slot)));
+    }
+    let pre_refs = Arc::new(pre_refs);
+    let mut bodies: Vec<Box<dyn FnOnce(Rc<Ctl>) -> Vec<String> + Send>> = Vec::new();
+    for prog in progs.iter().cloned() {
+        let arena = arena.clone();
+        let pre_refs = pre_refs.clone();
+        // elements are created up front so that slot numbers do not depend on the schedule
+        let mut elems: Vec<Option<El>> = prog
+            .iter()
+            .map(|o| if let AOp::Add(v) = o { Some(mk(*v, &mut next_slot)) } else { None })
+            .collect();
+        bodies.push(Box::new(move |ctl: Rc<Ctl>| {
+            let mut res = Vec::new();
+            let mut own = Vec::new();
+            for (k, op) in prog.iter().enumerate() {
+                ctl.arrive("op", 0);
+                match op {
+                    AOp::Add(_) => {
+                        let r = arena.add(elems[k].take().unwrap());
+                        res.push(format!("r{}", r.index()));
+                        own.push(r);
+                    }
+                    AOp::GetOwn(j) => res.push(format!("v{}", arena.get(own[*j]).val)),
+                    AOp::GetPre(j) => res.push(format!("v{}", arena.get(pre_refs[*j]).val)),
+                    AOp::GetZero => res.push(format!("v{}", arena.get(intern::Zero::<El>::zero()).val)),
+                    AOp::Len => res.push(format!("n{}", arena.len())),
+                }
+            }
+            res
+        }));
+    }
+    let out = run_scheduled(bodies, &schedule);
+    if out.hang {
+        return "hang".into();
+    }
+    let len = arena.len();
+    let mut s = fmt_threads(&out.labels, &out.results);
+    s.push_str(&format!("\tlen={}", len));
+    if zero {
+        // a static arena is never dropped
+        std::mem::forget(arena);
+        s.push_str("\tdrop=static");
+    } else {
+        drop(pre_refs);
+        match Arc::try_unwrap(arena) {
+            Ok(a) => drop(a),
+            Err(_) => return "arena-still-shared".into(),
+        }
+        let counts: Vec<u32> = drops.iter().skip(1).map(|c| c.load(Ordering::SeqCst)).collect();
+        let dropped = counts.iter().filter(|c| **c > 0).count();
+        let bad = counts.iter().filter(|c| **c != 1).count();
+        s.push_str(&format!("\tdrop={}/{}", dropped, bad));
+    }
+    s
+}
+
+fn gen_schedule(r: &mut Rng, n: usize, len: usize) -> String {
+    let mut s = String::new();
+    let mut cur = r.below(n);
+    for _ in 0..len {
+        // runs of the same thread, with preemptions
+        if r.chance(2, 5) {
+            cur = r.below(n);
+        }
+        s.push(char::from_digit(cur as u32, 10).unwrap());
+    }
+    s
+}
+
+fn gen_arena_sched(r: &mut Rng) -> String {
+    let zero = r.chance(1, 5);
+    let z = if zero { 1 } else { 0 };
+    // prefill so that the threads' additions cross a bucket boundary / race to allocate a bucket
+    let prefill = match r.below(8) {
+        0 => 0,
+        1 => r.range(0, 3),
+        2 | 3 => 128 - z - r.range(0, 3),
+        4 => 128 - z,
+        5 => 384 - z - r.range(0, 3),
+        6 => 896 - z - r.range(0, 2),
+        _ => r.range(100, 140),
+    };
+    let n = r.range(2, 3);
+    let mut progs = Vec::new();
+    for t in 0..n {
+        let k = r.range(1, 4);
+        let mut ops = Vec::new();
+        let mut adds = 0;
+        for j in 0..k {
+            match r.below(8) {
+                0 if adds > 0 => ops.push(format!("o{}", r.below(adds))),
+                1 if prefill > 0 => ops.push(format!("p{}", r.below(prefill))),
+                2 => ops.push("l".to_string()),
+                3 if zero => ops.push("z".to_string()),
+                _ => {
+                    ops.push(format!("a{}", 1000 * (t + 1) + j));
+                    adds += 1;
+                }
+            }
+        }
+        progs.push(ops.join(","));
+    }
+    let sl = r.range(0, 40);
+    let sch = gen_schedule(r, n, sl);
+    format!("arena.sched\t{}\t{}\t{}\t{}", z, prefill, progs.join(";"), if sch.is_empty() { "-".into() } else { sch })
+}
+
+// ------------------------------------------------------------------ uncontrolled stress (OS schedule)
+
+fn run_arena_stress(f: &[&str]) -> String {
+    let threads: usize = f[1].parse().unwrap();
+    let per: usize = f[2].parse().unwrap();
+    let total = threads * per;
+    let drops: Arc<Vec<AtomicU32>> = Arc::new((0..total).map(|_| AtomicU32::new(0)).collect());
+    let arena: Arc<vh::AtomicArena<'static, El>> = Arc::new(vh::AtomicArena::new());
+    let mut hs = Vec::new();
+    for t in 0..threads {
+        let arena = arena.clone();
+        let drops = drops.clone();
+        hs.push(std::thread::spawn(move || {
+            let mut out = Vec::new();
+            let mut ok = true;
+            let mut last_len = 0usize;
+            for j in 0..per {
+                let slot = t * per + j;
+                let r = arena.add(El { val: slot as u64, slot, drops: drops.clone() });
+                ok &= arena.get(r).val == slot as u64;
+                let l = arena.len();
+                ok &= l >= last_len && l > r.index() as usize;
+                last_len = l;
+                if j > 0 {
+                    let (pr, pv): (vh::Ref<'static, El>, u64) = out[j / 2];
+                    ok &= arena.get(pr).val == pv;
+                }
+                out.push((r, slot as u64));
+            }
+            (out, ok)
+        }));
+    }
+    let mut all: Vec<u32> = Vec::new();
+    let mut ok = true;
+    let mut pairs = Vec::new();
+    for h in hs {
+        let (out, o) = h.join().unwrap();
+        ok &= o;
+        for (r, v) in out {
+            all.push(r.index());
+            pairs.push((r, v));
+        }
+    }
+    // read back everything from this thread after all additions completed
+    for (r, v) in &pairs {
+        ok &= arena.get(*r).val == *v;
+    }
+    all.sort();
+    let uniq = all.windows(2).all(|w| w[0] != w[1]) && all.iter().enumerate().all(|(i, r)| *r as usize == i);
+    let len = arena.len();
+    drop(pairs);
+    match Arc::try_unwrap(arena) {
+        Ok(a) => drop(a),
+        Err(_) => return "arena-still-shared".into(),
+    }
+    let dropped = drops.iter().filter(|c| c.load(Ordering::SeqCst) > 0).count();
+    let bad = drops.iter().filter(|c| c.load(Ordering::SeqCst) != 1).count();
+    format!("uniq={}\treadback={}\tlen={}\tdrop={}/{}", uniq, ok, len, dropped, bad)
+}
+
+fn run_intern_stress(f: &[&str]) -> String {
+    let threads: usize = f[1].parse().unwrap();
+    let per: usize = f[2].parse().unwrap();
+    let distinct: u64 = f[3].parse().unwrap();
+    let table: &'static InternTable<HId, HVal> = Box::leak(Box::new(InternTable::new()));
+    CUR_TABLE.store(table as *const _ as *mut _, Ordering::SeqCst);
+    let mut hs = Vec::new();
+    for t in 0..threads {
+        hs.push(std::thread::spawn(move || {
+            let mut out = Vec::new();
+            let mut ok = true;
+            for j in 0..per {
+                let v = ((t * 7919 + j * 104729) as u64) % distinct;
+                let id = HId::intern(HVal(v));
+                ok &= id.get().0 == v;
+                ok &= HId::get_interned(&HVal(v)) == Some(id);
+                out.push((v, id.index()));
+            }
+            (out, ok)
+        }));
+    }
+    let mut ok = true;
+    let mut map: std::collections::BTreeMap<u64, u32> = std::collections::BTreeMap::new();
+    let mut eq_ok = true;
+    for h in hs {
+        let (out, o) = h.join().unwrap();
+        ok &= o;
+        for (v, i) in out {
+            if let Some(p) = map.insert(v, i) {
+                eq_ok &= p == i;
+            }
+        }
+    }
+    let mut ids: Vec<u32> = map.values().cloned().collect();
+    ids.sort();
+    let dense = ids.iter().enumerate().all(|(k, i)| *i as usize == k) && table.len() == map.len();
+    format!("eq={}\tlookup={}\tdense={}\tlen={}", eq_ok, ok, dense, table.len())
+}
+
+// ------------------------------------------------------------------ intern table under a schedule
+
+#[derive(Hash, PartialEq, Eq, Debug)]
+struct HVal(u64);
+
+#[derive(Copy, Clone, PartialEq, Eq, Hash)]
+struct HId(intern::intern::Ref<HVal>);
+
+static CUR_TABLE: AtomicPtr<InternTable<HId, HVal>> = AtomicPtr::new(std::ptr::null_mut());
+
+impl InternId for HId {
+    type Intern = HVal;
+    type Lookup = HVal;
+    fn table() -> &'static InternTable<Self, HVal> {
+        unsafe { &*CUR_TABLE.load(Ordering::SeqCst) }
+    }
+    fn wrap(r: intern::intern::Ref<HVal>) -> Self {
+        HId(r)
+    }
+    fn unwrap(self) -> intern::intern::Ref<HVal> {
+        self.0
+    }
+}
+
+impl Borrow<HVal> for AsInterned<HId> {
+    fn borrow(&self) -> &HVal {
+        self.0.get()
+    }
+}
+
+#[derive(Clone, Debug)]
+enum IOp {
+    Intern(u64),
+    Query(u64),
+    GetOwn(usize),
+    Len,
+}
+
+fn parse_iprogs(s: &str) -> Vec<Vec<IOp>> {
+    s.split(';')
+        .map(|p| {
+            p.split(',')
+                .filter(|x| !x.is_empty() && *x != "-")
+                .map(|x| {
+                    let (h, t) = x.split_at(1);
+                    match h {
+                        "i" => IOp::Intern(t.parse().unwrap()),
+                        "q" => IOp::Query(t.parse().unwrap()),
+                        "o" => IOp::GetOwn(t.parse().unwrap()),
+                        "l" => IOp::Len,
+                        _ => panic!("bad op {}", x),
+                    }
+                })
+                .collect()
+        })
+        .collect()
+}
+
+fn fnv1a(v: u64) -> u64 {
+    let mut h: u64 = 0xcbf29ce484222325;
+    for b in v.to_le_bytes() {
+        h ^= b as u64;
+        h = h.wrapping_mul(0x100000001b3);
+    }
+    h
+}
+
+fn shard_of(v: u64) -> u64 {
+    (fnv1a(v) >> 51) & 63
+}
+
+fn run_intern_sched(f: &[&str]) -> String {
+    let zero = f[1] == "1";
+    let progs = parse_iprogs(f[2]);
+    let schedule = parse_schedule(f[3]);
+    let table: &'static InternTable<HId, HVal> = if zero {
+        let z: &'static intern::Zero<HVal> = Box::leak(Box::new(intern::Zero::new(HVal(ZERO_VAL))));
+        Box::leak(Box::new(InternTable::with_zero(z)))
+    } else {
+        Box::leak(Box::new(InternTable::new()))
+    };
+    CUR_TABLE.store(table as *const _ as *mut _, Ordering::SeqCst);
+    // OnceCell initialisation of the shards happens here, outside the schedule
+    let _ = HId::get_interned(&HVal(u64::MAX));
+    let mut bodies: Vec<Box<dyn FnOnce(Rc<Ctl>) -> Vec<String> + Send>> = Vec::new();
+    for prog in progs.iter().cloned() {
+        bodies.push(Box::new(move |ctl: Rc<Ctl>| {
+            let mut res = Vec::new();
+            let mut own: Vec<HId> = Vec::new();
+            for op in prog.iter() {
+                ctl.arrive("op", 0);
+                match op {
+                    IOp::Intern(v) => {
+                        ctl.quiet_reads.set(true);
+                        let id = HId::intern(HVal(*v));
+                        ctl.quiet_reads.set(false);
+                        res.push(format!("i{}", id.index()));
+                        own.push(id);
+                    }
+                    IOp::Query(v) => {
+                        ctl.quiet_reads.set(true);
+                        let r = HId::get_interned(&HVal(*v));
+                        ctl.quiet_reads.set(false);
+                        res.push(match r {
+                            Some(id) => format!("s{}", id.index()),
+                            None => "none".to_string(),
+                        });
+                    }
+                    IOp::GetOwn(j) => res.push(format!("v{}", own[*j].get().0)),
+                    IOp::Len => res.push(format!("n{}", HId::table().len())),
+                }
+            }
+            res
+        }));
+    }
+    let out = run_scheduled(bodies, &schedule);
+    if out.hang {
+        return "hang".into();
+    }
+    let len = table.len();
+    let mut tbl = Vec::new();
+    for i in 0..len {
+        match HId::from_index_checked(i as u32) {
+            Some(id) => tbl.push(format!("{}", id.get().0)),
+            None => tbl.push("?".into()),
+        }
+    }
+    format!(
+        "{}\tlen={}\ttbl={}",
+        fmt_threads(&out.labels, &out.results),
+        len,
+        if tbl.is_empty() { "-".to_string() } else { tbl.join(",") }
+    )
+}
+
+fn gen_intern_sched(r: &mut Rng) -> String {
+    let zero = r.chance(1, 4);
+    // a small pool of values; some of them share a shard (searched deterministically)
+    let base = 1 + r.below(50) as u64;
+    let mut pool = vec![base, base + 1, base + 2];
+    let target = shard_of(base);
+    let mut c = base + 3;
+    let mut found = 0;
+    while found < 2 && c < base + 2000 {
+        if shard_of(c) == target {
+            pool.push(c);
+            found += 1;
+        }
+        c += 1;
+    }
+    if zero && r.chance(1, 3) {
+        pool.push(ZERO_VAL);
+    }
+    let n = r.range(2, 3);
+    let mut progs = Vec::new();
+    for _t in 0..n {
+        let k = r.range(1, 4);
+        let mut ops = Vec::new();
+        let mut interns = 0;
+        for _ in 0..k {
+            match r.below(8) {
+                0 if interns > 0 => ops.push(format!("o{}", r.below(interns))),
+                1 => ops.push(format!("q{}", r.pick(&pool))),
+                2 => ops.push("l".to_string()),
+                _ => {
+                    ops.push(format!("i{}", r.pick(&pool)));
+                    interns += 1;
+                }
+            }
+        }
+        progs.push(ops.join(","));
+    }
+    let sl = r.range(0, 60);
+    let sch = gen_schedule(r, n, sl);
+    format!("intern.sched\t{}\t{}\t{}", if zero { 1 } else { 0 }, progs.join(";"), if sch.is_empty() { "-".into() } else { sch })
+}
+
+// ------------------------------------------------------------------ sequential: ids, lookup, Ord
+
+fn ord_char(o: Ord_) -> char {
+    match o {
+        Ord_::Less => '<',
+        Ord_::Equal => '=',
+        Ord_::Greater => '>',
+    }
+}
+
+fn run_intern_seq(f: &[&str]) -> String {
+    let items: Vec<Vec<u8>> = f[1].split(',').map(|h| unhex(h).unwrap()).collect();
+    let ids: Vec<BytesId> = items.iter().map(|b| intern_bytes(&b[..])).collect();
+    let ids2: Vec<BytesId> = items.iter().map(|b| intern_bytes(b.clone())).collect();
+    let mut eq = String::new();
+    let mut cmp = String::new();
+    let mut scmp = String::new();
+    for i in 0..ids.len() {
+        for j in 0..ids.len() {
+            eq.push(if ids[i] == ids[j] { '1' } else { '0' });
+            cmp.push(ord_char(ids[i].cmp(&ids[j])));
+            match (StringId::from_bytes(ids[i]), StringId::from_bytes(ids[j])) {
+                (Ok(a), Ok(b)) => scmp.push(ord_char(a.cmp(&b))),
+                _ => scmp.push('x'),
+            }
+        }
+    }
+    let look: String = ids
+        .iter()
+        .zip(items.iter())
+        .map(|(id, b)| if id.as_bytes() == &b[..] { '1' } else { '0' })
+        .collect();
+    let stable = ids == ids2;
+    let len = <BytesId as InternId>::table().len();
+    let dense = ids.iter().all(|id| (id.index() as usize) < len)
+        && ids.iter().all(|id| BytesId::from_index_checked(id.index()) == Some(*id));
+    let empty_ok = items.iter().zip(ids.iter()).all(|(b, id)| (b.is_empty()) == (*id == BytesId::EMPTY));
+    format!("{}\t{}\t{}\t{}\t{}\t{}\t{}", eq, cmp, scmp, look, stable, dense, empty_ok)
+}
+
+const STR_ALPHABET: &[&str] = &["a", "b", "ab", "z", "", "é", "😀", "\u{0}", "A", "aa", "0"];
+
+fn gen_bytes(r: &mut Rng) -> Vec<u8> {
+    match r.below(10) {
+        0 => vec![],
+        1 => (0..r.range(20, 25)).map(|_| *r.pick(&[b'a', b'b'])).collect(),
+        2 => (0..r.range(1, 5)).map(|_| r.below(256) as u8).collect(),
+        3 => (0..r.range(21, 60)).map(|_| r.below(256) as u8).collect(),
+        _ => gen_text(r, 6, STR_ALPHABET).into_bytes(),
+    }
+}
+
+fn gen_intern_seq(r: &mut Rng) -> String {
+    let n = r.range(2, 5);
+    let mut items: Vec<Vec<u8>> = Vec::new();
+    for _ in 0..n {
+        if !items.is_empty() && r.chance(1, 4) {
+            let c = r.pick(&items).clone();
+            // repeat, or a neighbour (prefix / one byte changed)
+            let v = match r.below(3) {
+                0 => c,
+                1 => {
+                    let mut d = c.clone();
+                    d.push(r.below(256) as u8);
+                    d
+                }
+                _ => {
+                    let mut d = c.clone();
+                    if !d.is_empty() {
+                        let k = r.below(d.len());
+                        d[k] = d[k].wrapping_add(1);
+                    }
+                    d
+                }
+            };
+            items.push(v);
+        } else {
+            items.push(gen_bytes(r));
+        }
+    }
+    format!("intern.seq\t{}", items.iter().map(|b| hex(b)).collect::<Vec<_>>().join(","))
+}
+
+// ------------------------------------------------------------------ SmallBytes
+
+fn run_small(f: &[&str]) -> String {
+    let a = unhex(f[1]).unwrap();
+    let b = unhex(f[2]).unwrap();
+    let sa = vh::SmallBytes::from(&a[..]);
+    let sb = vh::SmallBytes::from(b.clone());
+    let kind = if format!("{:?}", sa).starts_with("Small") { "small" } else { "large" };
+    let rt: vh::SmallBytes = bincode::deserialize(&bincode::serialize(&sa).unwrap()).unwrap();
+    let rtj: vh::SmallBytes = serde_json::from_str(&serde_json::to_string(&sa).unwrap()).unwrap();
+    let rt_kind_same = format!("{:?}", rt) == format!("{:?}", sa) && format!("{:?}", rtj) == format!("{:?}", sa);
+    fn h(x: &vh::SmallBytes) -> u64 {
+        use std::hash::{Hash, Hasher};
+        let mut s = std::collections::hash_map::DefaultHasher::new();
+        x.hash(&mut s);
+        s.finish()
+    }
+    fn hb(x: &[u8]) -> u64 {
+        use std::hash::{Hash, Hasher};
+        let mut s = std::collections::hash_map::DefaultHasher::new();
+        x.hash(&mut s);
+        s.finish()
+    }
+    format!(
+        "{}\t{}\t{}\t{}\t{}\t{}",
+        kind,
+        sa.len(),
+        hex(&sa),
+        sa == sb,
+        rt == sa && rtj == sa && rt_kind_same,
+        h(&sa) == hb(&a)
+    )
+}
+
+fn gen_small(r: &mut Rng) -> String {
+    let len = match r.below(6) {
+        0 => r.range(0, 3),
+        1 | 2 | 3 => r.range(20, 25),
+        4 => r.range(250, 260),
+        _ => r.range(0, 60),
+    };
+    let a: Vec<u8> = (0..len).map(|_| if r.chance(1, 3) { 0 } else { r.below(256) as u8 }).collect();
+    let b = match r.below(4) {
+        0 => a.clone(),
+        1 => {
+            let mut d = a.clone();
+            d.push(0);
+            d
+        }
+        2 => {
+            let mut d = a.clone();
+            d.pop();
+            d
+        }
+        _ => {
+            let mut d = a.clone();
+            if !d.is_empty() {
+                let k = r.below(d.len());
+                d[k] ^= 1;
+            }
+            d
+        }
+    };
+    format!("small.bytes\t{}\t{}", hex(&a), hex(&b))
+}
+
+// ------------------------------------------------------------------ PathId
+
+fn run_path(f: &[&str]) -> String {
+    let a = String::from_utf8(unhex(f[1]).unwrap()).unwrap();
+    let b = String::from_utf8(unhex(f[2]).unwrap()).unwrap();
+    match catch_unwind(|| {
+        let pa = PathId::from(a.as_str());
+        let pb = PathId::from(b.as_str());
+        let back = pa.to_path_buf().to_string_lossy().to_string();
+        format!("{}\t{}\t{}", ord_char(pa.cmp(&pb)), pa == pb, hex(back.as_bytes()))
+    }) {
+        Ok(s) => s,
+        Err(_) => "panic".into(),
+    }
+}
+
+fn gen_path_str(r: &mut Rng) -> String {
+    let n = r.range(1, 4);
+    let comps: Vec<&str> = (0..n).map(|_| *r.pick(&["a", "b", "ab", "a.b", "_", "z", "é", "aa"])).collect();
+    let mut s = String::new();
+    for (i, c) in comps.iter().enumerate() {
+        if i > 0 {
+            s.push_str(if r.chance(1, 6) { "//" } else { "/" });
+        }
+        s.push_str(c);
+    }
+    if r.chance(1, 6) {
+        s.push('/');
+    }
+    s
+}
+
+fn gen_path(r: &mut Rng) -> String {
+    let a = gen_path_str(r);
+    let b = match r.below(4) {
+        0 => a.clone(),
+        1 => format!("{}/{}", a.trim_end_matches('/'), r.pick(&["a", "_", "b"])),
+        _ => gen_path_str(r),
+    };
+    format!("path.cmp\t{}\t{}", hex(a.as_bytes()), hex(b.as_bytes()))
+}
+
+// ------------------------------------------------------------------ serde with intern sharing
+
+#[derive(Debug, PartialEq, Eq, Hash, Serialize, Deserialize)]
+enum Tree {
+    Leaf(u32),
+    Pair(Box<Tree>, Box<Tree>),
+    My(MyId),
+    Str(StringId),
+}
+
+intern_struct! {
+    struct MyId = Intern<Tree> {
+        serdes("InternSerdes<MyId>");
+    }
+}
+
+/// description grammar: L<n> | P(<t>,<t>) | M<k> | S<k>
+struct Desc<'a> {
+    s: &'a [u8],
+    i: usize,
+}
+#[derive(Clone, Debug)]
+enum D {
+    Leaf(u32),
+    Pair(Box<D>, Box<D>),
+    My(usize),
+    Str(usize),
+}
+impl<'a> Desc<'a> {
+    fn num(&mut self) -> usize {
+        let st = self.i;
+        while self.i < self.s.len() && self.s[self.i].is_ascii_digit() {
+            self.i += 1;
+        }
+        std::str::from_utf8(&self.s[st..self.i]).unwrap().parse().unwrap()
+    }
+    fn parse(&mut self) -> D {
+        let c = self.s[self.i];
+        self.i += 1;
+        match c {
+            b'L' => D::Leaf(self.num() as u32),
+            b'M' => D::My(self.num()),
+            b'S' => D::Str(self.num()),
+            b'P' => {
+                self.i += 1; // (
+                let a = self.parse();
+                self.i += 1; // ,
+                let b = self.parse();
+                self.i += 1; // )
+                D::Pair(Box::new(a), Box::new(b))
+            }
+            _ => panic!("bad desc"),
+        }
+    }
+}
+fn parse_desc(s: &str) -> D {
+    Desc { s: s.as_bytes(), i: 0 }.parse()
+}
+
+fn build(d: &D, nodes: &[MyId], strs: &[StringId]) -> Tree {
+    match d {
+        D::Leaf(n) => Tree::Leaf(*n),
+        D::Pair(a, b) => Tree::Pair(Box::new(build(a, nodes, strs)), Box::new(build(b, nodes, strs))),
+        D::My(k) => Tree::My(nodes[*k]),
+        D::Str(k) => Tree::Str(strs[*k]),
+    }
+}
+
+/// JSON wire -> canonical wire string (L / P / V<ty>(..) / B<ty>:<k>)
+fn wire_of(v: &serde_json::Value, pool: &[Vec<u8>]) -> String {
+    let o = v.as_object().expect("object");
+    let (k, x) = o.iter().next().unwrap();
+    match k.as_str() {
+        "Leaf" => format!("L{}", x.as_u64().unwrap()),
+        "Pair" => {
+            let a = x.as_array().unwrap();
+            format!("P({},{})", wire_of(&a[0], pool), wire_of(&a[1], pool))
+        }
+        "My" => {
+            let e = x.as_object().unwrap();
+            let (ek, ex) = e.iter().next().unwrap();
+            match ek.as_str() {
+                "Value" => format!("V0({})", wire_of(ex, pool)),
+                "Id" => format!("B0:{}", ex.as_u64().unwrap()),
+                _ => panic!("bad intern enum"),
+            }
+        }
+        "Str" => {
+            let e = x.as_object().unwrap();
+            let (ek, ex) = e.iter().next().unwrap();
+            match ek.as_str() {
+                "Value" => {
+                    let bytes: Vec<u8> = ex.as_array().unwrap().iter().map(|b| b.as_u64().unwrap() as u8).collect();
+                    let k = pool.iter().position(|p| *p == bytes).expect("string not in pool");
+                    format!("V1(L{})", k)
+                }
+                "Id" => format!("B1:{}", ex.as_u64().unwrap()),
+                _ => panic!("bad intern enum"),
+            }
+        }
+        _ => panic!("bad tree"),
+    }
+}
+
+fn run_serde(f: &[&str]) -> String {
+    let pool: Vec<Vec<u8>> = if f[1] == "-" { vec![] } else { f[1].split(',').map(|h| unhex(h).unwrap()).collect() };
+    let node_descs: Vec<D> = if f[2] == "-" { vec![] } else { f[2].split(';').map(parse_desc).collect() };
+    let tree_desc = parse_desc(f[3]);
+    match catch_unwind(AssertUnwindSafe(|| {
+        let strs: Vec<StringId> = pool
+            .iter()
+            .map(|b| intern::string::intern(String::from_utf8(b.clone()).unwrap()))
+            .collect();
+        let mut nodes: Vec<MyId> = Vec::new();
+        for d in &node_descs {
+            let t = build(d, &nodes, &strs);
+            nodes.push(MyId::intern(t));
+        }
+        let tree = build(&tree_desc, &nodes, &strs);
+        let json = serde_json::to_string(&WithIntern(&tree)).unwrap();
+        let wire = wire_of(&serde_json::from_str::<serde_json::Value>(&json).unwrap(), &pool);
+        let back: Tree = WithIntern::strip(serde_json::from_str::<WithIntern<Tree>>(&json)).unwrap();
+        let bin = bincode::serialize(&WithIntern(&tree)).unwrap();
+        let back2: Tree = WithIntern::strip(bincode::deserialize::<WithIntern<Tree>>(&bin)).unwrap();
+        // a second serialisation under a new guard must not see stale tables
+        let json2 = serde_json::to_string(&WithIntern(&tree)).unwrap();
+        format!("{}\t{}\t{}\t{}", wire, back == tree, back2 == tree, json2 == json)
+    })) {
+        Ok(s) => s,
+        Err(_) => "panic".into(),
+    }
+}
+
+fn gen_desc(r: &mut Rng, depth: usize, n_nodes: usize, n_strs: usize) -> String {
+    let c = r.below(10);
+    if depth == 0 || c < 2 {
+        match r.below(4) {
+            0 if n_nodes > 0 => format!("M{}", r.below(n_nodes)),
+            1 if n_strs > 0 => format!("S{}", r.below(n_strs)),
+            2 if n_nodes > 0 => format!("M{}", r.below(n_nodes)),
+            _ => format!("L{}", r.below(5)),
+        }
+    } else if c < 7 {
+        format!("P({},{})", gen_desc(r, depth - 1, n_nodes, n_strs), gen_desc(r, depth - 1, n_nodes, n_strs))
+    } else if n_nodes > 0 && c < 9 {
+        format!("M{}", r.below(n_nodes))
+    } else if n_strs > 0 {
+        format!("S{}", r.below(n_strs))
+    } else {
+        format!("L{}", r.below(5))
+    }
+}
+
+fn gen_serde(r: &mut Rng, idx: u64) -> String {
+    let n_strs = r.range(0, 3);
+    // strings unique to this case index so that pool lookups are unambiguous
+    let pool: Vec<String> = (0..n_strs)
+        .map(|k| format!("{}{}-{}", r.pick(&["s", "long-string-over-the-inline-limit-", "é"]), idx, k))
+        .collect();
+    let n_nodes = r.range(0, 4);
+    let mut nodes = Vec::new();
+    for k in 0..n_nodes {
+        nodes.push(gen_desc(r, 2, k, n_strs));
+    }
+    let tree = gen_desc(r, 4, n_nodes, n_strs);
+    format!(
+        "serde.rt\t{}\t{}\t{}",
+        if pool.is_empty() { "-".to_string() } else { pool.iter().map(|s| hex(s.as_bytes())).collect::<Vec<_>>().join(",") },
+        if nodes.is_empty() { "-".to_string() } else { nodes.join(";") },
+        tree
+    )
+}
+
+// ------------------------------------------------------------------ main
+
+fn run(f: &[&str]) -> String {
+    match f[0] {
+        "arena.consts" => run_consts(),
+        "arena.index" => run_index(f),
+        "arena.cap" => run_cap(f),
+        "arena.sched" => run_arena_sched(f),
+        "arena.stress" => run_arena_stress(f),
+        "intern.stress" => run_intern_stress(f),
+        "intern.sched" => run_intern_sched(f),
+        "intern.seq" => run_intern_seq(f),
+        "small.bytes" => run_small(f),
+        "path.cmp" => run_path(f),
+        "serde.rt" => run_serde(f),
+        _ => "bad-op".into(),
+    }
+}
+
+fn main() {
+    let which = std::env::var("HX_ENGINE").unwrap_or_default();
+    main_loop(
+        &|r, i| match which.as_str() {
+            "arena" => match r.below(10) {
+                0..=3 => vec![gen_index(r)],
+                4 => vec![format!("arena.cap\t{}", r.below(40))],
+                _ => vec![gen_arena_sched(r)],
+            },
+            "intern" => match r.below(10) {
+                0..=3 => vec![gen_intern_sched(r)],
+                4 | 5 => vec![gen_serde(r, i)],
+                6 => vec![gen_intern_seq(r)],
+                7 => vec![gen_small(r)],
+                _ => vec![gen_path(r)],
+            },
+            _ => vec![gen_index(r), gen_arena_sched(r), gen_intern_sched(r), gen_serde(r, i)],
+        },
+        &mut |f| run(f),
+    );
+}
